@@ -7,6 +7,7 @@ exec >"$LOG" 2>&1
 cd "$WT" || exit 2
 git checkout -q -- . ; git clean -qfd
 FEAT=""; grep -q 'features capi' $D/out/notes.md 2>/dev/null && grep -qi "demo$N.*capi\|capi.*demo$N" $D/out/notes.md && FEAT="--features capi"
+case "$ID" in C16|C17) FEAT="--features capi";; esac
 cp $D/out/demo$N.rs examples/seed_demo.rs
 echo "== demo WITHOUT patch"; timeout 600 cargo run -q --offline $FEAT --example seed_demo >/dev/null 2>$D/demo-clean-$N.err; echo "demo_clean_rc=$?"
 git apply $D/out/patch$N.diff || { echo "APPLY FAILED"; exit 3; }
